@@ -123,6 +123,13 @@ pub fn links(a: Ty, b: Ty) -> Vec<Link> {
 }
 
 fn element(i: usize, ty: Ty, link: Option<(Link, usize)>) -> String {
+    element_v(i, ty, link, 0)
+}
+
+/// `variant` bit 0: the definition carries a view box or bounding-box content units (the other
+/// branch of its converter); bit 1: an inheritable link (fill, stroke, markers) is written on a
+/// group around the definition instead of on its child, so that it arrives by inheritance.
+fn element_v(i: usize, ty: Ty, link: Option<(Link, usize)>, variant: u32) -> String {
     let id = format!("e{}", i);
     let tgt = link.map(|(_, j)| format!("e{}", j)).unwrap_or_default();
     let lk = link.map(|(l, _)| l);
@@ -143,13 +150,35 @@ fn element(i: usize, ty: Ty, link: Option<(Link, usize)>) -> String {
         Some(Link::MarkerEnd) => format!(r#" marker-end="url(#{})""#, tgt),
         _ => String::new(),
     };
+    let inheritable = matches!(
+        lk,
+        Some(Link::FillChild) | Some(Link::StrokeChild) | Some(Link::MarkerStart) | Some(Link::MarkerMid) | Some(Link::MarkerEnd)
+    );
+    let (child_attr, outer_attr) = if variant & 2 != 0 && inheritable && ty != Ty::Gradient {
+        (String::new(), child_attr)
+    } else {
+        (child_attr, String::new())
+    };
     // a child that can carry every kind of link (a path, so that markers apply too)
     let child = format!(r#"<path d="M 1 1 L 9 1 L 9 9 L 1 9 Z"{}/>"#, child_attr);
-    match ty {
+    let alt = variant & 1 != 0;
+    let self_attr = if alt {
+        match ty {
+            Ty::Pattern => format!(r#"{self_attr} viewBox="0 0 5 5""#),
+            Ty::ClipPath => format!(r#"{self_attr} clipPathUnits="objectBoundingBox""#),
+            Ty::Mask => format!(r#"{self_attr} maskContentUnits="objectBoundingBox""#),
+            _ => self_attr,
+        }
+    } else {
+        self_attr
+    };
+    let linked_by_fill = child_attr.contains(" fill=") || outer_attr.contains(" fill=");
+    let linked_by_stroke = child_attr.contains(" stroke=") || outer_attr.contains(" stroke=");
+    let body = match ty {
         Ty::ClipPath => format!(r#"<clipPath id="{id}"{self_attr}>{child}</clipPath>"#),
         Ty::Mask => format!(
             r#"<mask id="{id}"{self_attr}>{}</mask>"#,
-            if child_attr.contains(" fill=") { child.clone() } else { child.replace("<path ", r#"<path fill="white" "#) }
+            if linked_by_fill { child.clone() } else { child.replace("<path ", r#"<path fill="white" "#) }
         ),
         Ty::Pattern => {
             if lk == Some(Link::HrefSelf) {
@@ -160,19 +189,25 @@ fn element(i: usize, ty: Ty, link: Option<(Link, usize)>) -> String {
             }
         }
         Ty::Filter => match lk {
-            Some(Link::FeImage) => format!(r##"<filter id="{id}"><feImage xlink:href="#{tgt}"/></filter>"##),
+            Some(Link::FeImage) => format!(r##"<filter id="{id}"{}><feImage xlink:href="#{tgt}"/></filter>"##, if alt { r#" primitiveUnits="objectBoundingBox""# } else { "" }),
             Some(Link::HrefSelf) => format!(r#"<filter id="{id}"{self_attr}/>"#),
             _ => format!(r#"<filter id="{id}"><feFlood flood-color="green"/></filter>"#),
         },
         Ty::Marker => format!(
-            r#"<marker id="{id}" markerWidth="6" markerHeight="6">{}</marker>"#,
-            if child_attr.contains(" stroke=") { child.clone() } else { child.replace("<path ", r#"<path stroke="black" "#) }
+            r#"<marker id="{id}" markerWidth="6" markerHeight="6"{}>{}</marker>"#,
+            if alt { r#" viewBox="0 0 6 6""# } else { "" },
+            if linked_by_stroke { child.clone() } else { child.replace("<path ", r#"<path stroke="black" "#) }
         ),
         Ty::G => match lk {
             Some(Link::UseChild) => format!(r##"<g id="{id}"><use xlink:href="#{tgt}"/></g>"##),
             _ => format!(r#"<g id="{id}">{child}</g>"#),
         },
         Ty::Gradient => format!(r#"<linearGradient id="{id}"{self_attr}><stop offset="0" stop-color="red"/><stop offset="1" stop-color="blue"/></linearGradient>"#),
+    };
+    if outer_attr.is_empty() {
+        body
+    } else {
+        format!("<g{outer_attr}>{body}</g>")
     }
 }
 
@@ -190,10 +225,14 @@ fn entry(ty: Ty) -> String {
 /// A cyclic reference graph: elements e0 … e(L-1) with a link e_i → e_{(i+1) mod L}, optionally a
 /// non-cyclic prefix element that enters the cycle, entered from a plain shape; plus the witness.
 pub fn cycle_doc(types: &[Ty], lks: &[Link], g_in_defs: bool) -> String {
+    cycle_doc_v(types, lks, g_in_defs, 0)
+}
+
+pub fn cycle_doc_v(types: &[Ty], lks: &[Link], g_in_defs: bool, variant: u32) -> String {
     let n = types.len();
     let mut defs = String::new();
     for i in 0..n {
-        let e = element(i, types[i], Some((lks[i], (i + 1) % n)));
+        let e = element_v(i, types[i], Some((lks[i], (i + 1) % n)), variant);
         defs += &e;
     }
     let _ = g_in_defs;
@@ -295,7 +334,7 @@ pub fn corr(tier: &str, seed: u64, c: &mut Corr) {
         let take = if tier == "thorough" { all.len() } else { 120.min(all.len()) };
         for _ in 0..take {
             let (t, l) = rng.pick(&all).clone();
-            docs.push(cycle_doc(&t, &l, true));
+            docs.push(cycle_doc_v(&t, &l, true, rng.below(4) as u32));
         }
     }
     for svg in docs {
@@ -351,12 +390,20 @@ pub fn search(tier: &str, seed: u64, s: &mut Search) {
             (0..cap).map(|_| rng.pick(&all).clone()).collect()
         };
         for (t, l) in chosen {
-            let svg = cycle_doc(&t, &l, true);
-            let sig: Vec<String> = t.iter().zip(l.iter()).map(|(a, b)| format!("{:?}:{}", a, b.name())).collect();
-            let key = format!("cycle [{}] {}", sig.join(" > "), svg);
-            let out = wk.run(&format!("cycle {}", hex_encode(svg.as_bytes())), timeout);
-            s.case(&format!("cycle-len-{}", len), &key, matches!(&out, Outcome::Answer(a) if a.starts_with("ok")));
-            check_output(s, &format!("len{}", len), &key, &out, &mut wk);
+            // every definition shape for the short cycles, a drawn one for the long ones
+            let variants: Vec<u32> = if len <= 2 { vec![0, 1, 2, 3] } else { vec![0, 1 + rng.below(3) as u32] };
+            for variant in variants {
+                let svg = cycle_doc_v(&t, &l, true, variant);
+                if variant != 0 && svg == cycle_doc(&t, &l, true) {
+                    continue;
+                }
+                let sig: Vec<String> = t.iter().zip(l.iter()).map(|(a, b)| format!("{:?}:{}", a, b.name())).collect();
+                let key = format!("cycle [{}] v{} {}", sig.join(" > "), variant, svg);
+                let out = wk.run(&format!("cycle {}", hex_encode(svg.as_bytes())), timeout);
+                let fam = if variant == 0 { format!("cycle-len-{}", len) } else { format!("cycle-len-{}-shape{}", len, variant) };
+                s.case(&fam, &key, matches!(&out, Outcome::Answer(a) if a.starts_with("ok")));
+                check_output(s, &format!("len{}", len), &key, &out, &mut wk);
+            }
         }
     }
     // random graphs with mixed kinds, up to 12 elements, out-degree up to 2
@@ -376,7 +423,7 @@ pub fn search(tier: &str, seed: u64, s: &mut Search) {
                     break;
                 }
             }
-            defs += &element(i, tys[i], link);
+            defs += &element_v(i, tys[i], link, rng.below(4) as u32);
         }
         let svg = format!("{HDR}<defs>{defs}</defs>{}{WITNESS}</svg>", entry(tys[0]));
         let out = wk.run(&format!("cycle {}", hex_encode(svg.as_bytes())), timeout);
